@@ -189,6 +189,24 @@ def gen(rng, tier):
     return out
 
 
+# K1 is reported as KNOWN-FINDING only when the coordinator has listed it in known_findings.json (entry id "K1", snippet in
+# notes/findings/known_findings.C06.json); without the entry these cases stay plain fidelity cases (model and code agree).
+K1_LISTED = any(k.get("id") == "K1" for k in vlib.load_known("C06"))
+K1_MSG = "ReadPMT answers ErrPMTNotFound for a well-formed PMT with an empty stream list (K1); the property asks for the (empty) stream list"
+
+
+def oracle(c, real, model):
+    if K1_LISTED and c.kind == "read-empty-streams-K1" and real == "[1 20]":
+        return K1_MSG
+    return None
+
+
+def known_match(entry, c, real, model):
+    if entry.get("id") == "K1":
+        return c.kind == "read-empty-streams-K1" and real == "[1 20]"
+    return c.line in entry.get("lines", [entry.get("line")])
+
+
 def case_of_line(line, kind):
     return Case(line, kind=kind, decides=not (kind.startswith("fid-") or kind.startswith("read-empty")))
 
